@@ -304,7 +304,7 @@ func Main(id string, variants func(thorough bool) []Variant) {
 		"distinct_nontrivial":           distinctOutcomes,
 		"rule":                          "stateless exploration of the real (source-rewritten) node under a controlled scheduler: every execution whose total deviation cost from the default schedule is within the bound, all select/rendezvous/environment choices enumerated; transitions = scheduler steps; distinct = distinct observation logs per scenario variant (states = distinct cache keys when the state cache is on, else distinct outcomes)",
 		"variants":                      perV,
-		"cost_model":                    "delay bounding: choosing the i-th enabled thread in canonical order costs i",
+		"cost_model":                    "deviation bounding: choosing the i-th enabled thread in canonical order costs i; a non-default ready select case or rendezvous partner costs 1; scripted environment choices (closing point, chunk boundary, fault position) are free and enumerated completely",
 		"cache":                         os.Getenv("VERIF_CACHE") == "1",
 	})
 }
